@@ -7,22 +7,28 @@ def main():
     start = int(sys.argv[4]) if len(sys.argv) > 4 else 0
     mod = __import__('kv.' + eng, fromlist=['x'])
     from kv import gen
-    t = time.time(); allv = {}
+    t = time.time(); allv = {}; tot = {}
     for i in range(start, start + n):
         rng = gen.make_rng(eng, prop, common.seed(), i)
         case = mod.gen_case(rng, prop)
         case['selftest'] = True
-        r, viol = mod.run_case(case, prop)
+        out = mod.run_case(case, prop)
+        if isinstance(out, tuple):
+            r, viol = out[0], out[1]
+        else:
+            r, viol = out, out.viol
+            for k, v in out.cnt.items(): tot[k] = tot.get(k, 0) + v
         for v in viol:
             key = (v['property'], v['kind'], tuple(v.get('mech') or ()))
             if key not in allv: allv[key] = [0, v, i]
             allv[key][0] += 1
-    print(n, 'cases', round(time.time() - t, 1), 's')
+    print(n, 'cases', round(time.time() - t, 1), 's', tot)
     for k, (c, v, i) in sorted(allv.items()):
         print('==', k, 'count', c, 'case#', i)
         print('   ', v['msg'][:400])
         print('   cfg', json.dumps(v['case'].get('cfg')), '| sig', v['case'].get('sig'), '| step', v.get('step'))
         ops = v['case'].get('ops') or []
         s = v.get('step') or 0
-        print('   ops', json.dumps(ops[max(0, s - 6): s + 1])[:900])
+        if ops: print('   ops', json.dumps(ops[max(0, s - 6): s + 1])[:900])
+        else: print('   case', json.dumps(dict((k, x) for k, x in v['case'].items() if k != 'ops'))[:700])
 main()
